@@ -4314,3 +4314,113 @@ mutant('C05-batch-shortcut-on-length', 'C05',
          "    sorted_dex = np.argsort(row_index_list)\n"
          "    inverse_argsort = {")],
        'R-PERM/request-order', '_load_disjoint_csr')
+
+# ----------------------------------------------------------------------
+# round 13
+# ----------------------------------------------------------------------
+_ER = P+'type_assignment/election_runner.py'
+twin('C01-twin-serialize-with-int-cast', 'C01',
+     'serialize_markers indexes the names with positions cast to int',
+     [(_MC, "        grp_key = \"None\"\n"
+       "        ref_idx = src[grp_key]['reference'][()]\n"
+       "        marker_gene_lookup[grp_key] = [\n"
+       "            str(reference_gene_names[ii]) for ii in ref_idx]\n",
+       "        grp_key = \"None\"\n"
+       "        ref_idx = src[grp_key]['reference'][()].astype(int)\n"
+       "        marker_gene_lookup[grp_key] = [\n"
+       "            str(g) for g in np.array(reference_gene_names)[ref_idx]]\n")])
+mutant('C08-serialize-root-by-fancy-index', 'C08',
+       'serialize_markers indexes the names with the root positions as '
+       'read',
+       [(_MC, "        grp_key = \"None\"\n"
+         "        ref_idx = src[grp_key]['reference'][()]\n"
+         "        marker_gene_lookup[grp_key] = [\n"
+         "            str(reference_gene_names[ii]) for ii in ref_idx]\n",
+         "        grp_key = \"None\"\n"
+         "        ref_idx = src[grp_key]['reference'][()]\n"
+         "        marker_gene_lookup[grp_key] = list(\n"
+         "            np.array(reference_gene_names)[ref_idx])\n")],
+       'R-ROLE/positions-as-stored', 'serialize_markers')
+mutant('C03-runner-clamps-to-widest-parent', 'C03',
+       'the election runner clamps the number of candidates to the '
+       'widest fan-out of the tree',
+       [(_ER, "    if use_torch():\n        result = "
+         "run_type_assignment_on_h5ad_gpu(\n",
+         "    n_assignments = min(\n"
+         "        n_assignments,\n"
+         "        max(len(taxonomy_tree.children(p[0], p[1]))\n"
+         "            for p in taxonomy_tree.all_parents if p is not None))\n"
+         "    if use_torch():\n        result = "
+         "run_type_assignment_on_h5ad_gpu(\n")],
+       'R-FWD/candidates-unchanged', 'run_type_assignment_on_h5ad')
+twin('C03-twin-choose-node-clamp-reordered', 'C03',
+     'choose_node clamps with the operands of min swapped',
+     [(_EL, "    n_assignments = min(n_assignments, votes.shape[1])\n",
+       "    n_assignments = min(votes.shape[1], n_assignments)\n")])
+mutant('C07-minmax-blocks-truncated', 'C07',
+       'the sparse min/max scan visits int(n / block) blocks',
+       [(_VU, "    for i0 in range(0, n_el, chunk_size[0]):\n"
+         "        i1 = min(n_el, i0+chunk_size[0])\n",
+         "    for i_b in range(int(n_el/chunk_size[0])):\n"
+         "        i0 = i_b*chunk_size[0]\n"
+         "        i1 = min(n_el, i0+chunk_size[0])\n")],
+       'R-TILE/whole-axis', '_get_minmax_from_sparse')
+twin('C07-twin-minmax-blocks-ceil', 'C07',
+     'the sparse min/max scan visits ceil(n / block) blocks',
+     [(_VU, "    for i0 in range(0, n_el, chunk_size[0]):\n"
+       "        i1 = min(n_el, i0+chunk_size[0])\n",
+       "    for i_b in range(int(np.ceil(n_el/chunk_size[0]))):\n"
+       "        i0 = i_b*chunk_size[0]\n"
+       "        i1 = min(n_el, i0+chunk_size[0])\n")])
+mutant('C13-pointer-window-copied-raw', 'C13',
+       'mask_indptr-style copy of a pointer window without re-basing in '
+       'the CSC column subsetter',
+       [(_AU, "            dst_indptr[-1] = n_non_zero\n",
+         "            dst_indptr[-1] = n_non_zero\n"
+         "            if len(chosen_columns) == 1:\n"
+         "                dst_indptr[:-1] = src_indptr[\n"
+         "                    chosen_columns[0]:chosen_columns[0]+1]\n")],
+       'R-SAMEVAL/pointer-window-rebased', 'subset_csc_h5ad_columns')
+mutant('C17-validator-reads-metadata-flag', 'C17',
+       'the validator rejects trees whose metadata names unknown levels',
+       [(_TXU, "    for this_level in taxonomy_tree.keys():\n"
+         "        if this_level == 'hierarchy':\n",
+         "    if 'hierarchy_mapper' in taxonomy_tree:\n"
+         "        for lv in taxonomy_tree['hierarchy_mapper']:\n"
+         "            if lv not in hierarchy:\n"
+         "                raise RuntimeError(f'unknown level {lv}')\n"
+         "    for this_level in taxonomy_tree.keys():\n"
+         "        if this_level == 'hierarchy':\n")],
+       'R-AGREE/validator-vs-reducers', 'hierarchy_mapper')
+mutant('C19-metadata-appended-before-create', 'C19',
+       'blob_to_hdf5 appends the metadata and lets the results writer '
+       'create the file',
+       [(_OUT, "    with h5py.File(dst_path, 'w') as dst:\n\n"
+         "        dst.create_dataset(\n"
+         "            'metadata',\n",
+         "    with h5py.File(dst_path, 'a') as dst:\n\n"
+         "        dst.create_dataset(\n"
+         "            'metadata',\n")],
+       'R-FRESH', 'blob_to_hdf5')
+mutant('C12-downsample-shortcut-all-kept', 'C12',
+       'downsample_indptr hands the indices through when no element is '
+       'dropped',
+       [(_SU, "    indices_new = np.zeros(ct_new, dtype=indices_old.dtype)\n"
+         "    for ii in range(len(indptr_to_keep)):\n",
+         "    if ct_new == indices_old.shape[0]:\n"
+         "        return indptr_new, indices_old\n"
+         "    indices_new = np.zeros(ct_new, dtype=indices_old.dtype)\n"
+         "    for ii in range(len(indptr_to_keep)):\n")],
+       'R-AGREE/returns-depend-alike', 'downsample_indptr')
+mutant('C05-copy-extent-from-data-only', 'C05',
+       'the sparse layer copy takes the extent of every array from the '
+       'indices array',
+       [(_AU, "                    for i0 in range(0, src_dataset.shape[0], "
+         "chunks[0]):\n"
+         "                        i1 = min(src_dataset.shape[0], "
+         "i0+chunks[0])\n",
+         "                    for i0 in range(0, src_grp['indices'].shape[0]"
+         ", chunks[0]):\n"
+         "                        i1 = min(src_grp['indices'].shape[0], "
+         "i0+chunks[0])\n")],
+       'R-TILE', '_copy_layer_to_x_sparse')
